@@ -1261,6 +1261,11 @@ func mapOwner(m ssa.Value) (ssa.Value, string) {
 // lockHeldFor: the owner's mutex (the first sync.Mutex / sync.RWMutex field of the struct type) is
 // held, according to the ghost lock set maintained by the Lock/Unlock contracts.
 func (g *FnGen) lockHeldFor(tn, base string) string {
+	return g.lockHeldMode(tn, base, false)
+}
+
+// lockHeldMode: with shared=true a read hold of an RWMutex also counts (enough for reads).
+func (g *FnGen) lockHeldMode(tn, base string, shared bool) string {
 	if g.root().C != nil && g.root().C.OnceGuarded {
 		return "true"
 	}
@@ -1281,7 +1286,14 @@ func (g *FnGen) lockHeldFor(tn, base string) string {
 			key, _ := g.D.fieldKey(t, i)
 			addr := g.opaqueAddr(&Place{Key: key, Base: base})
 			hk := g.ensureGhostField("held")
-			return sel(g.D.get(g.st, hk), addr)
+			h := sel(g.D.get(g.st, hk), addr)
+			if shared {
+				if _, ok := g.S.GhostFields["rheld"]; ok {
+					rk := g.ensureGhostField("rheld")
+					return or(h, sel(g.D.get(g.st, rk), addr))
+				}
+			}
+			return h
 		}
 	}
 	return "false"
@@ -1294,7 +1306,7 @@ func (g *FnGen) checkGuardedRead(ins ssa.Instruction, key, base string, pos toke
 		return
 	}
 	tn := key[2:strings.LastIndex(key, ".")]
-	g.oblige("shared-write", g.siteNames[ins]+":read:"+strings.TrimPrefix(key, "F:"), g.curGuard, or(g.isFresh(base), g.lockHeldFor(tn, base)), "guarded field is read only under the owner's lock", pos)
+	g.oblige("shared-write", g.siteNames[ins]+":read:"+strings.TrimPrefix(key, "F:"), g.curGuard, or(g.isFresh(base), g.lockHeldMode(tn, base, true)), "guarded field is read only under the owner's lock (a read hold suffices)", pos)
 }
 
 type autoInv struct {
